@@ -65,6 +65,12 @@ fn main() {
             let lines = t.finish();
             println!("{}", serde_json::json!({"runs": runs, "events": lines}));
         }
+        "comments" => {
+            let mut t = Trace::create(job["out"].as_str().unwrap());
+            let runs = vharness::metah::run_comments(&job, &mut t);
+            let lines = t.finish();
+            println!("{}", serde_json::json!({"runs": runs, "events": lines}));
+        }
         "blocks" => {
             let mut t = Trace::create(job["out"].as_str().unwrap());
             let runs = vharness::metah::run_blocks(&job, &mut t);
